@@ -10,7 +10,9 @@ with hh[key] >= max(threshold,1), and equality with a freshly loaded copy.
 """
 import shutil
 
-from ..common import tmpdir
+import numpy as np
+
+from ..common import MachineryError, tmpdir
 from . import hh_common as H
 from . import c03
 
@@ -66,7 +68,79 @@ def task(arg):
     return c03.task(arg)
 
 
+POOLKEYS = [b"a", b"c", b"d", b"e", b"f", b"g", b"h", b"i"]
+
+
+def wsweep_case(w, m, phi, scratch):
+    """Default threshold on the rounding edge.  One real sketch of width w (depth 1) holding a
+    heavy key and a light key whose count m-1 is exactly one below n_added()/w = m.  The
+    documented default is floor(phi * n_added()) with phi the sketch's float (1/w by default):
+    where that product falls just below the integer m the light key belongs to the answer,
+    where it reaches m it does not - an integer n_added()//w, a re-derived phi or a float32 phi
+    move the edge.  query() is judged by the full C13 oracle of the history explorer."""
+    from .. import sk as SK
+
+    args = [w, 1, 2] + ([] if phi is None else [phi])
+    sk = SK.make("hh", *args)
+    n = m * w
+    heavy = b"b"
+    sk.add(heavy, n - (m - 1))
+    true = {heavy: n - (m - 1)}
+    light = None
+    if m > 1:
+        for k in POOLKEYS:
+            before = int(sk[heavy])
+            sk.add(k, m - 1)
+            if int(sk[k]) == m - 1 and int(sk[heavy]) == before:
+                light = k
+                true[k] = m - 1
+                break
+            # shared the heavy key's cell: start again with the next candidate
+            sk = SK.make("hh", *args)
+            sk.add(heavy, n - (m - 1))
+    hs = H.HHSys(scratch, MODE)
+    probs = hs.query_event(sk, true, 0, None)
+    t_eff = int(np.uint32(float(sk.phi) * int(sk.n_added())))
+    ans = sk.query(H.INF)
+    if sorted((k, int(c)) for k, c in ans) != sorted((k, int(c)) for k, c in sk.query(H.INF, t_eff)):
+        probs.append(f"query() = {ans} differs from query(inf, floor(phi*n_added()) = {t_eff})")
+    return probs, (light is not None, t_eff == m - 1)
+
+
+def width_sweep(rep):
+    """E3: every width 2..W x every m = n_added()/width in 1..M, default phi, plus explicit phi =
+    1/w; ~5% of the widths have float(1/w)*m*w < m for some m, which is where an integer
+    re-derivation of the threshold disagrees with the documented float product."""
+    W, M = (200, 8) if rep.tier == "quick" else (1200, 16)
+    scratch = tmpdir()
+    n = edge = 0
+    try:
+        for w in range(2, W + 1):
+            for m in range(1, M + 1):
+                for phi in (None, 1.0 / w):
+                    probs, (has_light, on_edge) = wsweep_case(w, m, phi, scratch)
+                    n += 1
+                    rep.evals()
+                    if has_light:
+                        rep.nontrivial(("ws", w, m, phi is None))
+                    edge += on_edge
+                    if probs:
+                        rep.violation({"part": "wsweep", "w": w, "m": m, "phi": phi},
+                                      f"hh[{w},1,2{'' if phi is None else ', phi=1/w'}] with n_added() = "
+                                      f"{m}*{w}: {probs[0]}")
+    finally:
+        shutil.rmtree(scratch, ignore_errors=True)
+    rep.add("transitions", n)
+    rep.add("traces_validated_against_impl", n)
+    rep.part("default-threshold-width-sweep", widths=[2, W], m=[1, M], cases=n,
+             cases_with_float_product_below_integer=edge)
+    print(f"  default-threshold width sweep: {n} cases, {edge} on the rounding edge", flush=True)
+    if not rep.violations and edge < 5:
+        raise MachineryError("C13 width sweep never reached a rounding edge")
+
+
 def run(rep):
+    width_sweep(rep)
     c03.run_mode(rep, MODE, configs(rep.tier, rep.seed), __name__)
     rep.set(
         "rule",
@@ -80,6 +154,9 @@ def run(rep):
 def replay(case):
     scratch = tmpdir()
     try:
+        if case.get("part") == "wsweep":
+            probs, _ = wsweep_case(case["w"], case["m"], case["phi"], scratch)
+            return bool(probs), {"problems": probs[:3]}
         return H.HHSys(scratch, MODE).replay(case["cfg"], case["events"])
     finally:
         shutil.rmtree(scratch, ignore_errors=True)
